@@ -1002,13 +1002,132 @@ Section DelivStep2.
             split; [exact H1|]. split; [intros Hx; simpl; rewrite Er; exact (H2 Hx)|].
             right. exists e. split; auto. fold thr' in Qa. split; lia.
       - assert (Ek : mem s0 kids && negb (ev_bad e) = false).
-        { destruct (mem s0 kids) eqn:E1; auto. rewrite E1, orb_true_r in Hsplit. rewrite Hsplit in Em. exact Em. }
+        { destruct (mem s0 kids) eqn:E1; auto. rewrite orb_true_r in Hsplit. rewrite Hsplit in Em. exact Em. }
         assert (Eg : mem s0 gone && negb (ev_bad e) = false).
-        { destruct (mem s0 gone) eqn:E1; auto. rewrite E1 in Hsplit. simpl in Hsplit. rewrite Hsplit in Em. exact Em. }
+        { destruct (mem s0 gone) eqn:E1; auto. simpl in Hsplit. rewrite Hsplit in Em. exact Em. }
         rewrite Eg in A3. rewrite Ek in Qa. simpl in Qa.
         eapply (DO_keep ev_bad) with (a := map (fun s1 => GMissed s1 e) gone); [exact HD0|reflexivity|exact A1|exact A2|exact A3|auto| |].
         + fold thr' in Qa. lia.
         + intros e0. pose proof (Qf e0) as Qe. simpl in Qe. rewrite Em, Ek in Qe. simpl in Qe. lia. }
-    all: match goal with Hl : lookup_thr _ _ = Some (?i :: _) |- _ => idtac i end.
-  Admitted.
+    (* IUSFilter (UpdateSubscription): acceptance for one subscriber *)
+    1-2: (apply negb_false_iff in Ec; apply mem_In in Ec; destruct (rg_tsubs _ HR _ _ Ec) as (_ & Hb & Ht);
+          assert (Hca : cnt (infl_t t) (threads st) = 0) by (eapply claimA; [exact HU|exact Hl|simpl; apply Nat.eqb_refl]);
+          destruct HU as [(G1 & G2 & G2n & G3 & G4 & G5 & P1 & P2) G0];
+          pose proof (nfa_zero ev_bad st (threads st) s t G5 Hca Ht) as Hz).
+    1: { destruct ((s =? s0) && negb (ev_bad e)) eqn:Em.
+      - apply andb_true_iff in Em. destruct Em as [Em Eb]. apply Nat.eqb_eq in Em. subst s0.
+        destruct HD0 as (tail & H1 & H2 & [[-> Hc]|(e' & -> & Hc & _)]); [|lia].
+        exists []. unfold chron in *. simpl. rewrite !acc_app, !del_app, !mis_app. simpl. unfold mem. simpl. rewrite Nat.eqb_refl, Eb. simpl.
+        rewrite !app_nil_r in *. split; [rewrite H1; rewrite <- ?app_assoc; reflexivity|]. split; [intros _; exact Ec2|].
+        left. split; auto. hq HQ (nfa ev_bad s). lia.
+      - eapply (DO_keep ev_bad) with (a := [GMissed s e; GAccept t e [s]]); [exact HD0|reflexivity| |reflexivity| |auto| |].
+        + simpl. unfold mem. simpl. rewrite (Nat.eqb_sym s0 s). destruct (s =? s0); simpl in *; [rewrite Em|]; reflexivity.
+        + simpl. rewrite Em. reflexivity.
+        + hq HQ (nfa ev_bad s0). lia.
+        + intros e0. hq HQ (nfl ev_bad s0 e0). lia. }
+    1: { destruct ((s =? s0) && negb (ev_bad e)) eqn:Em.
+      - apply andb_true_iff in Em. destruct Em as [Em Eb]. apply Nat.eqb_eq in Em. subst s0.
+        destruct HD0 as (tail & H1 & H2 & [[-> Hc]|(e' & -> & Hc & _)]); [|lia].
+        exists [e]. unfold chron in *. simpl. rewrite !acc_app, !del_app, !mis_app. simpl. unfold mem. simpl. rewrite Nat.eqb_refl, Eb. simpl.
+        rewrite !app_nil_r in *. split; [rewrite H1; rewrite <- ?app_assoc; reflexivity|]. split; [exact H2|].
+        right. exists e. split; auto. split.
+        + hq HQ (nfa ev_bad s). rewrite Nat.eqb_refl, Eb in Hq. simpl in Hq. lia.
+        + hq HQ (nfl ev_bad s e). rewrite !Nat.eqb_refl, Eb in Hq. simpl in Hq. pose proof (nfl_le_nfa ev_bad (threads st) s e). lia.
+      - eapply (DO_keep ev_bad) with (a := [GAccept t e [s]]); [exact HD0|reflexivity| |reflexivity|reflexivity|auto| |].
+        + simpl. unfold mem. simpl. rewrite (Nat.eqb_sym s0 s). destruct (s =? s0); simpl in *; [rewrite Em|]; reflexivity.
+        + hq HQ (nfa ev_bad s0). rewrite Em in Hq. simpl in Hq. lia.
+        + intros e0. hq HQ (nfl ev_bad s0 e0). rewrite Em in Hq. simpl in Hq. lia. }
+    1: { (* IKidLoad: same delivery, next stage *)
+      eapply (DO_keep ev_bad) with (a := []); [exact HD0|reflexivity|reflexivity|reflexivity|reflexivity|auto| |].
+      - pose proof (HQ (nfa ev_bad s0)) as Hq. unfold cntl in Hq. simpl in Hq. destruct (s =? s0); destruct (ev_bad e); simpl in Hq; lia.
+      - intros e0. pose proof (HQ (nfl ev_bad s0 e0)) as Hq. unfold cntl in Hq. simpl in Hq.
+        destruct (s =? s0); destruct (ev_bad e); destruct (e =? e0); simpl in Hq; lia. }
+    (* IKidWrite: the W_s region decides between delivered and missed *)
+    1-4: (assert (Eb : negb (ev_bad e) = true)
+            by (destruct (ev_bad e) eqn:E0; auto; exfalso; pose proof (HI (kwbad ev_bad)) as Hh; simpl in Hh; specialize (Hh E0); lia)).
+    1: { destruct (Nat.eqb_spec s s0) as [->|Hne].
+      - pose proof (HI (nfl ev_bad s0 e)) as Hh. simpl in Hh. rewrite Nat.eqb_refl, Eb, Nat.eqb_refl in Hh. specialize (Hh eq_refl).
+        destruct HD0 as (tail & H1 & H2 & [[-> Hc]|(e' & -> & Hc & Hce)]); [exfalso; pose proof (nfl_le_nfa ev_bad (threads st) s0 e); lia|].
+        assert (e = e') by (eapply (nfl_unique ev_bad (threads st) s0); lia). subst e'.
+        exists []. unfold chron in *. simpl. rewrite !acc_app, !del_app, !mis_app. simpl. rewrite Nat.eqb_refl, Eb. simpl.
+        rewrite !app_nil_r in *. split; [rewrite H1; rewrite <- ?app_assoc; reflexivity|]. split; [intros _; exact Ec|].
+        left. split; auto. hq HQ (nfa ev_bad s0). rewrite Nat.eqb_refl, Eb in Hq. simpl in Hq. lia.
+      - eapply (DO_keep ev_bad) with (a := [GMissed s e]); [exact HD0|reflexivity|reflexivity|reflexivity| |auto| |].
+        + simpl. destruct (Nat.eqb_spec s s0); [congruence|reflexivity].
+        + hq HQ (nfa ev_bad s0). destruct (Nat.eqb_spec s s0); [congruence|]. simpl in Hq. lia.
+        + intros e0. hq HQ (nfl ev_bad s0 e0). destruct (Nat.eqb_spec s s0); [congruence|]. simpl in Hq. lia. }
+    1: { destruct (Nat.eqb_spec s s0) as [->|Hne].
+      - pose proof (HI (nfl ev_bad s0 e)) as Hh. simpl in Hh. rewrite Nat.eqb_refl, Eb, Nat.eqb_refl in Hh. specialize (Hh eq_refl).
+        destruct HD0 as (tail & H1 & H2 & [[-> Hc]|(e' & -> & Hc & Hce)]); [exfalso; pose proof (nfl_le_nfa ev_bad (threads st) s0 e); lia|].
+        assert (e = e') by (eapply (nfl_unique ev_bad (threads st) s0); lia). subst e'.
+        assert (Hm0 : mis ev_bad s0 (chron st) = []).
+        { destruct (mis ev_bad s0 (chron st)) eqn:E0; auto. specialize (H2 ltac:(discriminate)). congruence. }
+        exists []. unfold chron in *. simpl. rewrite !acc_app, !del_app, !mis_app. simpl. rewrite Nat.eqb_refl. simpl.
+        rewrite Hm0 in *. rewrite !app_nil_r in *. simpl in *. split; [rewrite H1; rewrite <- ?app_assoc; reflexivity|]. split; [intros Hx; congruence|].
+        left. split; auto. hq HQ (nfa ev_bad s0). rewrite Nat.eqb_refl, Eb in Hq. simpl in Hq. lia.
+      - eapply (DO_keep ev_bad); [exact HD0|simpl; match goal with |- ?a :: ?b :: log _ = _ => instantiate (1 := [a; b]); reflexivity end
+          |reflexivity|simpl; unfold del, writes_of; simpl; destruct (Nat.eqb_spec s s0); [congruence|reflexivity]|reflexivity|auto| |].
+        + hq HQ (nfa ev_bad s0). destruct (Nat.eqb_spec s s0); [congruence|]. simpl in Hq. lia.
+        + intros e0. hq HQ (nfl ev_bad s0 e0). destruct (Nat.eqb_spec s s0); [congruence|]. simpl in Hq. lia. }
+    1: { destruct (Nat.eqb_spec s s0) as [->|Hne].
+      - pose proof (HI (nfl ev_bad s0 e)) as Hh. simpl in Hh. rewrite Nat.eqb_refl, Eb, Nat.eqb_refl in Hh. specialize (Hh eq_refl).
+        destruct HD0 as (tail & H1 & H2 & [[-> Hc]|(e' & -> & Hc & Hce)]); [exfalso; pose proof (nfl_le_nfa ev_bad (threads st) s0 e); lia|].
+        assert (e = e') by (eapply (nfl_unique ev_bad (threads st) s0); lia). subst e'.
+        assert (Hm0 : mis ev_bad s0 (chron st) = []).
+        { destruct (mis ev_bad s0 (chron st)) eqn:E0; auto. specialize (H2 ltac:(discriminate)). congruence. }
+        exists []. unfold chron in *. simpl. rewrite !acc_app, !del_app, !mis_app. simpl. rewrite Nat.eqb_refl. simpl.
+        rewrite Hm0 in *. rewrite !app_nil_r in *. simpl in *. split; [rewrite H1; rewrite <- ?app_assoc; reflexivity|]. split; [intros Hx; congruence|].
+        left. split; auto. hq HQ (nfa ev_bad s0). rewrite Nat.eqb_refl, Eb in Hq. simpl in Hq. lia.
+      - eapply (DO_keep ev_bad); [exact HD0|simpl; match goal with |- ?a :: ?b :: log _ = _ => instantiate (1 := [a; b]); reflexivity end
+          |reflexivity|simpl; unfold del, writes_of; simpl; destruct (Nat.eqb_spec s s0); [congruence|reflexivity]|reflexivity|auto| |].
+        + hq HQ (nfa ev_bad s0). destruct (Nat.eqb_spec s s0); [congruence|]. simpl in Hq. lia.
+        + intros e0. hq HQ (nfl ev_bad s0 e0). destruct (Nat.eqb_spec s s0); [congruence|]. simpl in Hq. lia. }
+    1: { destruct (Nat.eqb_spec s s0) as [->|Hne].
+      - pose proof (HI (nfl ev_bad s0 e)) as Hh. simpl in Hh. rewrite Nat.eqb_refl, Eb, Nat.eqb_refl in Hh. specialize (Hh eq_refl).
+        destruct HD0 as (tail & H1 & H2 & [[-> Hc]|(e' & -> & Hc & Hce)]); [exfalso; pose proof (nfl_le_nfa ev_bad (threads st) s0 e); lia|].
+        assert (e = e') by (eapply (nfl_unique ev_bad (threads st) s0); lia). subst e'.
+        assert (Hm0 : mis ev_bad s0 (chron st) = []).
+        { destruct (mis ev_bad s0 (chron st)) eqn:E0; auto. specialize (H2 ltac:(discriminate)). congruence. }
+        exists []. unfold chron in *. simpl. rewrite !acc_app, !del_app, !mis_app. simpl. rewrite Nat.eqb_refl. simpl.
+        rewrite Hm0 in *. rewrite !app_nil_r in *. simpl in *. split; [rewrite H1; rewrite <- ?app_assoc; reflexivity|]. split; [intros Hx; congruence|].
+        left. split; auto. hq HQ (nfa ev_bad s0). rewrite Nat.eqb_refl, Eb in Hq. simpl in Hq. lia.
+      - eapply (DO_keep ev_bad); [exact HD0|simpl; match goal with |- ?a :: ?b :: log _ = _ => instantiate (1 := [a; b]); reflexivity end
+          |reflexivity|simpl; unfold del, writes_of; simpl; destruct (Nat.eqb_spec s s0); [congruence|reflexivity]|reflexivity|auto| |].
+        + hq HQ (nfa ev_bad s0). destruct (Nat.eqb_spec s s0); [congruence|]. simpl in Hq. lia.
+        + intros e0. hq HQ (nfl ev_bad s0 e0). destruct (Nat.eqb_spec s s0); [congruence|]. simpl in Hq. lia. }
+    1: { destruct c; (eapply (DO_keep ev_bad); [exact HD0|simpl; match goal with |- ?a :: log _ = _ => instantiate (1 := [a]); reflexivity end
+           |reflexivity|reflexivity|reflexivity|auto|hq HQ (nfa ev_bad s0); lia|intros e0; hq HQ (nfl ev_bad s0 e0); lia]). }
+  Qed.
 End DelivStep2.
+
+(* ---- along every run of the repaired model ---- *)
+Section DelivMain.
+  Variable flt : sid -> ev -> fres.
+  Variable wresf : sid -> ev -> wres.
+  Variable ev_bad : ev -> bool.
+  Variable hbfail : sid -> bool.
+  Notation reach := (reachable fixed flt wresf ev_bad hbfail).
+  Notation stepf := (step fixed flt wresf ev_bad hbfail).
+  Notation execf := (exec fixed flt wresf ev_bad hbfail).
+
+  Definition AO (st : state) : Prop :=
+    forall t e l, In (GAccept t e l) (log st) -> forall s, In s l -> flt s e = FPass.
+
+  Definition DI (st : state) : Prop :=
+    RG st /\ WC st /\ WT st /\ UDfull st (threads st) /\ cnt (hl st) (threads st) = 0 /\
+    cnt (kwbad ev_bad) (threads st) = 0 /\ (forall s, DOp ev_bad st (threads st) s) /\ AO st.
+
+  Lemma AO_exec : forall st i x st1 push sp, AO st -> execf st i x = Some (st1, push, sp) -> AO st1.
+  Proof.
+    intros st i x st1 push sp H He. unfold AO in *.
+    assert (Hgen : forall a, log st1 = a ++ log st -> (forall t e l, In (GAccept t e l) a -> forall s, In s l -> flt s e = FPass) ->
+                   forall t e l, In (GAccept t e l) (log st1) -> forall s, In s l -> flt s e = FPass).
+    { intros a Hl Ha t e l Hi s Hs. rewrite Hl in Hi. apply in_app_iff in Hi. destruct Hi; eauto. }
+    exec_cases He;
+      try (solve [apply (Hgen []); [reflexivity|intros ? ? ? []]]);
+      try (solve [simpl; intros t0 e0 l0 [Hx|Hi]; [discriminate|eauto]]);
+      try (solve [simpl; intros t0 e0 l0 [Hx|[Hx|Hi]]; [discriminate|discriminate|eauto]]).
+    all: match goal with |- ?g => idtac end.
+    Show.
+  Admitted.
+End DelivMain.
